@@ -67,7 +67,7 @@ TEXT = {
         'technique': 'explicit-state BFS over operation histories on the implementation with an abstract-document reference model compared after every transition',
     },
     'C15': {
-        'level': 'Exhaustive over small alphabets on the real operators: all ordered pairs and all triples of the 121 strings of length <=4 over {a,b,0x01} through String, StringView, the const C* overloads and StringUtils::IsLess/IsGreater in char/char16_t/char32_t against the lexicographic reference (trichotomy, <=/>= unions, prefix-first, transitivity); all pairs and triples of 36 values of every kind including pointer-to-value; every array of length <=5 over 4 values (duplicates, prefix chain) through Array<int>, Array<String>, Value arrays, <loop sort>, HArray keys and Value object keys with and without a removed member, ascending and descending (ordered permutation, lookups afterwards, caller\'s value untouched).',
+        'level': 'Exhaustive over small alphabets on the real operators: all ordered pairs and all triples of the 341 strings of length <=4 over {a,b,0x01} through String, StringView, the const C* overloads and StringUtils::IsLess/IsGreater in char/char16_t/char32_t against the lexicographic reference (trichotomy, <=/>= unions, prefix-first, transitivity); all pairs and triples of 36 values of every kind including pointer-to-value; every array of length <=5 over 4 values (duplicates, prefix chain) through Array<int>, Array<String>, Value arrays, <loop sort>, HArray keys and Value object keys with and without a removed member, ascending and descending (ordered permutation, lookups afterwards, caller\'s value untouched).',
         'design_ref': 'DESIGN.md §5 C15',
         'note': 'String units below 0x80 only (signedness of char is not part of the property).',
         'technique': 'exhaustive enumeration of pairs/triples/small arrays on the implementation',
